@@ -314,10 +314,11 @@ class NGetText(BaseTranslateFilter, TranslatableFilter):
         _filter: Filter,
         lineno: int,
     ) -> MessageText | None:
-        if len(_filter.args) < 1:
+        args = _positional_arguments(_filter)
+        if len(args) < 1:
             return None
 
-        plural = _filter.args[0].value
+        plural = args[0]
 
         if not isinstance(left, StringLiteral) or not isinstance(plural, StringLiteral):
             return None
@@ -367,10 +368,11 @@ class PGetText(BaseTranslateFilter, TranslatableFilter):
     def message(  # noqa: D102
         self, left: Expression, _filter: Filter, lineno: int
     ) -> MessageText | None:
-        if len(_filter.args) < 1:
+        args = _positional_arguments(_filter)
+        if len(args) < 1:
             return None
 
-        ctx = _filter.args[0].value
+        ctx = args[0]
 
         if not isinstance(left, StringLiteral) or not isinstance(ctx, StringLiteral):
             return None
@@ -437,11 +439,12 @@ class NPGetText(BaseTranslateFilter, TranslatableFilter):
         _filter: Filter,
         lineno: int,
     ) -> MessageText | None:
-        if len(_filter.args) < 2:  # noqa: PLR2004
+        args = _positional_arguments(_filter)
+        if len(args) < 2:  # noqa: PLR2004
             return None
 
-        ctx = _filter.args[0].value
-        plural = _filter.args[1].value
+        ctx = args[0]
+        plural = args[1]
 
         if (
             not isinstance(left, StringLiteral)
@@ -455,6 +458,14 @@ class NPGetText(BaseTranslateFilter, TranslatableFilter):
             funcname=self.name,
             message=((ctx.value, "c"), left.value, plural.value),
         )
+
+
+def _positional_arguments(_filter: Filter) -> list[Expression]:
+    """Return the positional arguments of _filter_, in order.
+
+    Message variables are keyword arguments and can be written anywhere among them.
+    """
+    return [arg.value for arg in _filter.args if isinstance(arg, PositionalArgument)]
 
 
 def _count(val: Any) -> int | None:
